@@ -147,6 +147,15 @@ def prelude_for(clause):
            ("ec2", {"type": "value", "key": "other", "op": clause.get("op"), "value": v}),
            ("ec2", {"type": "value", "key": k, "op": clause.get("op"), "value": v, "value_type": "swap"} if not clause.get("value_type") and clause.get("op") in ("in", "ni") else
             {"type": "value", "key": k, "value": "present"})]
+    # the same key with values that compare equal in the host language but are different policy values (30 / 30.0 / True / "30")
+    if isinstance(v, int) and not isinstance(v, bool):
+        pre = [("ec2", {"type": "value", "key": "z", "op": clause.get("op"), "value": float(v)}), ("ec2", {"type": "value", "key": "z", "op": "eq", "value": str(v)})] + pre
+        if v in (0, 1):
+            pre.insert(0, ("ec2", {"type": "value", "key": "z", "op": "eq", "value": bool(v)}))
+    elif isinstance(v, list) and v and all(isinstance(x, int) for x in v):
+        pre = [("ec2", {"type": "value", "key": "z", "op": clause.get("op"), "value": [float(x) for x in v]})] + pre
+    elif isinstance(v, str):
+        pre = [("ec2", {"type": "value", "key": "z", "op": "eq", "value": v, "value_type": "normalize"})] + pre
     return pre
 
 
